@@ -305,6 +305,38 @@ def task_columns(ctx, levels, lname):
         decide(ctx, 'sigma_to_pressure.affine_columns_exact_within_one_cell_of_the_levels_missing_beyond', dict(conf, level=k, ps_interval=[l, h]),
                box + reg, bad, spec=reg,
                replay=col_replay(to_pressure, k, lambda a_, b_, ps_, pk=pk: (a_ + b_ * pk / ps_) if s_lo < pk / ps_ < s_hi else np.nan))
+  # hybrid -> sigma: a column that is affine in the SOURCE sigma (which itself depends on the surface pressure: sigma_j = (a_j + b_j ps) / ps at the
+  # layer centres a_j, b_j = mid-points of the documented boundary coefficients) comes out affine in the target sigma, within one source cell of
+  # the source range, and missing beyond
+  for hname, (ha, hb) in {'full-column-4': (np.array([0.0, 20.0, 60.0, 30.0, 0.0]), np.array([0.0, 0.0, 0.2, 0.65, 1.0])),
+                          'low-top-4': (np.array([10.0, 40.0, 80.0, 30.0, 0.0]), np.array([0.0, 0.0, 0.15, 0.7, 1.0]))}.items():
+    hyb = vi.HybridCoordinates(a_boundaries=ha, b_boundaries=hb)
+    ac = (ha[1:] + ha[:-1]) / 2; bc = (hb[1:] + hb[:-1]) / 2
+    nsrc = len(ac)
+
+    def hyb_to_sigma(a, b, ps, hyb=hyb, ac=ac, bc=bc):
+      src = (ac[:, None, None] + bc[:, None, None] * ps) / ps
+      return vi.interp_hybrid_to_sigma(a + b * src, hyb, sig, ps[0])
+    clh = jax.make_jaxpr(hyb_to_sigma)(jnp.zeros((1, nx, ny)), jnp.zeros((1, nx, ny)), 900.0 * jnp.ones((1, nx, ny)))
+    outh = Interp(sp).run(clh, a, b, ps)[0]
+    a_lo, b_lo = 2 * ac[0] - ac[1], 2 * bc[0] - bc[1]               # sigma_0 - (sigma_1 - sigma_0)
+    a_hi, b_hi = 2 * ac[-1] - ac[-2], 2 * bc[-1] - bc[-2]
+
+    def src_sigma(ps_, aa, bb):
+      return (aa + bb * ps_) / ps_
+    for k in range(K):
+      sk = float(sig.centers[k])
+      r = _r(outh.a[k, 0, 0])
+      expv = av + bv * Q(sk)
+      brk = [aa / (sk - bb) for aa, bb in list(zip(ac, bc)) + [(a_lo, b_lo), (a_hi, b_hi)] if abs(sk - bb) > 1e-12]
+      for (l, h) in _intervals(PS_LO, PS_HI, brk):
+        pm = 0.5 * (l + h)
+        reg = [psv > Q(l * (1 + 1e-9)), psv < Q(h * (1 - 1e-9))]
+        inside = src_sigma(pm, a_lo, b_lo) < sk < src_sigma(pm, a_hi, b_hi)
+        bad = z3.Or(r - expv > eps, expv - r > eps) if inside else (r != z3.RealVal(NAN))
+        decide(ctx, 'hybrid_to_sigma.affine_columns_exact_within_one_cell_of_the_levels_missing_beyond', dict(conf, hybrid=hname, level=k, ps_interval=[l, h]),
+               box + reg, bad, spec=reg,
+               replay=col_replay(hyb_to_sigma, k, lambda a_, b_, ps_, sk=sk: (a_ + b_ * sk) if src_sigma(ps_, a_lo, b_lo) < sk < src_sigma(ps_, a_hi, b_hi) else np.nan))
   # surface pressure: piecewise-linear geopotential in pressure meets g * orography
   sp2 = TermSpace()
   geo = TermArr.variables(sp2, 'phi', (pc.layers, 1, 1)); oro = TermArr.variables(sp2, 'h', (1, 1, 1))
